@@ -14,6 +14,8 @@ def rows():
     out = []
     first = missed = 0
     for d in sorted(glob.glob(os.path.join(V, 'seeded', '*'))):
+        if not os.path.isdir(d):
+            continue
         m = json.load(open(os.path.join(d, 'meta.json')))
         prop = m['property']
         cr = m.get('checks_run', {})
